@@ -102,7 +102,8 @@ def handle1 (op : String) (args : List Sexp) : Option String := do
       let s ← sigOf (← Val.ofSexp s); let ds ← decosOf (← Val.ofSexp ds)
       let c ← callOf (← Val.ofSexp a) (← Val.ofSexp k)
       let fn := mkMany ds { chain := [], base := 0 }
-      pure (reply (evalChain s recBody fn.chain c))
+      -- a `loops` layer that receives a list / tuple / dict of a looped type: outside the model (C19's subject) => bad-op
+      if inDomain s fn.chain c then pure (reply (evalChain s recBody fn.chain c)) else Option.none
   | "stackhist", [s, ds, cs] =>
       let s ← sigOf (← Val.ofSexp s); let ds ← decosOf (← Val.ofSexp ds)
       let fn := mkMany ds { chain := [], base := 0 }
@@ -111,7 +112,7 @@ def handle1 (op : String) (args : List Sexp) : Option String := do
           let cs ← cs.mapM fun
             | .tuple [a, k] => callOf a k
             | _ => Option.none
-          pure (reply (.ok (.list (stackReplies s fn.chain {} cs))))
+          if cs.all (inDomain s fn.chain) then pure (reply (.ok (.list (stackReplies s fn.chain {} cs)))) else Option.none
       | _ => Option.none
   | "stackhist2", [s, steps] =>
       -- `(L (T S:wrap S:class (D params)) | (T S:call (L args) (D kw)) ...)`: constructor applications between the calls
@@ -123,6 +124,21 @@ def handle1 (op : String) (args : List Sexp) : Option String := do
             | .tuple [.cell (.str "call"), a, k] => (callOf a k).map HStep.call
             | _ => Option.none
           let out := runSteps s recBody Call.hasArr { chain := [], base := 0 } {} steps
+          pure (reply (.ok (.list (out.map fun r => .tuple [resVal r.1, .cell (.int r.2)]))))
+      | _ => Option.none
+  | "stackhist3", [s, steps] =>
+      -- `(L (T S:wrap S:class (D params) I:src) | (T S:call (L args) (D kw) I:obj) ...)`: every object built so far stays
+      -- callable (object 0 = the plain function); a step naming an object that does not exist is `bad-op`
+      let s ← sigOf (← Val.ofSexp s)
+      match ← Val.ofSexp steps with
+      | .list steps =>
+          let steps ← steps.mapM fun
+            | .tuple [.cell (.str "wrap"), .cell (.str c), .dict p, .cell (.int src)] =>
+                if src < 0 then Option.none else (clsOf c).map fun c => MStep.wrap c p src.toNat
+            | .tuple [.cell (.str "call"), a, k, .cell (.int j)] =>
+                if j < 0 then Option.none else (callOf a k).map (MStep.call j.toNat)
+            | _ => Option.none
+          let out ← runMulti s recBody Call.hasArr {} steps
           pure (reply (.ok (.list (out.map fun r => .tuple [resVal r.1, .cell (.int r.2)]))))
       | _ => Option.none
   | "mk", [ds] =>
